@@ -24,6 +24,10 @@ def sh(cmd, cwd=None, timeout=1800, env=None):
 
 
 def main():
+    # one evaluation at a time (the scratch worktrees and their build directories are shared)
+    import fcntl
+    lock = open("/tmp/seedeval.lock", "w")
+    fcntl.flock(lock, fcntl.LOCK_EX)
     name, patch, demo, meta = sys.argv[1:5]
     checks = None
     tier = "quick"
